@@ -27,6 +27,7 @@ def runs_for(prop, tier):
         "C16": [R("reload", 2), R("quota", .6), R("limits", .6)],
         "C13": [R("bad", 3), R("core", .5)],
         "C12": [R("restart", 3)],
+        "C05": [R("limits", 3), R("core", .7), R("gang", .5)],
     }
     return table[prop]
 
@@ -64,13 +65,14 @@ def model_stage(tier, seed, mc=True):
 NEED = {   # vacuity guards: the run is not a verdict unless these step kinds occurred
     "C01": ["schedAlloc"], "C02": ["schedAlloc"], "C03": ["schedAlloc", "drains", "replConfirm"], "C04": ["schedAlloc", "confirm"],
     "C05": ["schedAlloc"], "C06": ["replDecided", "replConfirm", "phTimerFired"], "C07": ["preemptSteps"], "C08": ["preemptSteps"],
-    "C09": ["resvMade"], "C10": ["appStateChanges", "stateTimerFired"], "C11": ["schedAlloc"], "C16": ["reloadOk", "reloadRejected"], "C13": ["bad"], "C12": ["restart", "schedAlloc"],
+    "C09": ["resvMade"], "C10": ["appStateChanges", "stateTimerFired"], "C11": ["schedAlloc"], "C16": ["reloadOk", "reloadRejected"], "C13": ["bad"], "C12": ["restart", "schedAlloc"], "C05": ["schedAlloc", "reloadOk"],
 }
 
 # properties decided by their own pipeline module (vlib/<module>.py: main(prop, tier, seed, argv))
 OTHER = {"C14": "conc", "C18": "resarith", "C19": "sorting", "C20": "events", "C15": "confvalid", "C17": "placement"}
 # C13: besides its own checks, every ledger invariant counts in the malformed-request profile ("leaves accounting as it was")
 PREFIXES = {"C13": ["C13_", "C03_", "C01_NodeLedger", "C09_Views", "C05_UserUsage", "C05_GroupUsage"]}
+SECOND_PART = {"C05": "ugmlimits"}   # the user/group manager as a deterministic state machine (spec/UGM.tla, lock-step)
 MODEL_PROPS = {"C01", "C02", "C03", "C04", "C06", "C09", "C10"}   # properties the generative model speaks about
 CRASH_OWNERS = {"C08", "C13"}   # properties whose statement covers "the core process dies"
 LEVEL_TEXT = {}
@@ -105,7 +107,7 @@ def main(argv):
         missing = [n for n in NEED[prop] if res["counters"].get(n, 0) == 0]
         kf_lines = []
         for k in kf_all:
-            if k.get("status") == "known" and prop in k.get("properties", [k.get("property")]):
+            if k.get("status") == "known" and k.get("shape") and prop in k.get("properties", [k.get("property")]):
                 kf_lines.append("KNOWN-FINDING: property=%s %s [%s] observed_in_this_run=%d" % (prop, k["what"], k["id"], res["kf_obs"].get(k["id"], 0)))
         cov = {"evaluations": res["steps"], "distinct_nontrivial": res["nontrivial"],
                "rule": "one evaluation = one step of the real core validated by TLC against YKTrace.tla (all %s checks on the logged pre/post state); a trace (operation sequence: seeded workload profile or TLC-generated environment history) is non-trivial when it contains at least one step of the kinds %s; distinct = distinct operation sequences (sha1)" % (PREFIXES.get(prop, [prop + "_*"]), NEED[prop]),
@@ -123,7 +125,38 @@ def main(argv):
         C.write_evidence(prop, tier, seed, level, cov, time.time() - t0, len(res["violations"]), assumptions)
         if os.environ.get("VERIF_VERBOSE"):
             print(json.dumps({k: v for k, v in res.items() if k != "samples"}, indent=1))
-        C.finish(prop, res["violations"], kf_lines, infra=crash_infra or (("vacuous run: no step of kind %s" % missing) if missing else None))
+        infra = crash_infra or (("vacuous run: no step of kind %s" % missing) if missing else None)
+        if prop in SECOND_PART and not infra:
+            # a second decision procedure for the same property (its own module): run it, merge verdicts and evidence
+            import importlib, io, contextlib
+            buf = io.StringIO()
+            rc = 0
+            try:
+                with contextlib.redirect_stdout(buf):
+                    importlib.import_module("vlib." + SECOND_PART[prop]).main(prop, tier, seed, [])
+            except SystemExit as e:
+                rc = e.code or 0
+            out2 = buf.getvalue()
+            for ln in out2.splitlines():
+                if ln.startswith("KNOWN-FINDING:"):
+                    kf_lines.append(ln)
+                elif ln.startswith("VIOLATION"):
+                    res["violations"].append(ln.split("replay=")[1].strip())
+                elif ln.startswith("INFRA-ERROR"):
+                    infra = ln
+            if rc == 2 and not infra:
+                infra = "second part (%s) failed: %s" % (SECOND_PART[prop], out2[-800:])
+            try:
+                ev2 = json.load(open(C.VERIF + "/evidence/%s.json" % prop))
+                cov[SECOND_PART[prop]] = ev2["coverage"]
+                cov["states"], cov["transitions"] = ev2["coverage"].get("states", 0), ev2["coverage"].get("transitions", 0)
+                cov["traces_validated_against_impl"] = res["traces"] + ev2["coverage"].get("traces_validated_against_impl", 0)
+                level = "model_checking" if cov["states"] else level
+                assumptions = assumptions + ev2.get("assumptions", [])
+            except (OSError, ValueError, KeyError):
+                pass
+            C.write_evidence(prop, tier, seed, level, cov, time.time() - t0, len(res["violations"]), assumptions)
+        C.finish(prop, res["violations"], kf_lines, infra=infra)
     except C.Infra as e:
         print("INFRA-ERROR property=%s %s" % (prop, e))
         sys.exit(2)
